@@ -21,7 +21,7 @@ import (
 
 func TestMain(m *testing.M) { kit.Main(m) }
 
-const rule = "n in 0..12 closer components (a drawn subset returns errors, a drawn subset is lazy) inside an ordinary application; the harness owns the schedule: every Close blocks on its own gate, App.Close runs in a goroutine, gates are opened one at a time in a drawn order and before each opening App.Close must not have returned; when it returns every closer must have been called exactly once and have finished; non-trivial = >=2 closers and (a failing closer or a release order different from the registration order); distinct by (n, failing set, lazy set, release order); since rounds 7/8 also up to 100 closers, Primary closers, errors of the temporary kind, and (own process) a closer registered through app.Settings with a run that brings its own registry"
+const rule = "n in 0..12 closer components (a drawn subset returns errors, a drawn subset is lazy) inside an ordinary application; the harness owns the schedule: every Close blocks on its own gate, App.Close runs in a goroutine, gates are opened one at a time in a drawn order and before each opening App.Close must not have returned; when it returns every closer must have been called exactly once and have finished; non-trivial = >=2 closers and (a failing closer or a release order different from the registration order); distinct by (n, failing set, lazy set, release order); since rounds 7/8 also up to 100 closers, Primary closers, errors of the temporary kind, and (own process) a closer registered through app.Settings with a run that brings its own registry; closers that carry the Priority marker or an Order"
 
 type Closer struct {
 	name  string
